@@ -55,7 +55,7 @@ Proof. split; [repeat split; repeat constructor; vm_compute; reflexivity | vm_co
 (* ---- the Go arithmetic this property rests on, AS TRANSLATED FROM THE CURRENT SOURCES by tools/gotrans
    (gen/Funcs.v, operators in GoSem.v), equals the model's, for all values of the Go types ---- *)
 From Coq Require Import ZArith NArith Bool.
-From Pogreb Require Import Base Record Index GoSem FuncsIndexCheck FuncsRecordCheck FuncsLogCheck FuncsFSCheck.
+From Pogreb Require Import Base Record Index GoSem FuncsRecordCheck.
 From Pogreb.gen Require Funcs Consts.
 Import Funcs.
 Open Scope Z_scope.
